@@ -36,6 +36,19 @@ class SyncProp(Prop):
             for f in kd["files"]:
                 if f["content"] and f["prestate"] != "truth" and r.random() < 0.25:
                     f["content"] = f["content"].rstrip("\n")
+        # one existing target file named for two kinds (`--class F --argparse-function F`): the second kind's
+        # definition is added to the file the first kind's step has just rewritten
+        shared = False
+        if r.random() < 0.2:
+            hosts = [(k, f) for k, kd in cfg["kinds"].items() for f in kd["files"] if f["content"] and f["prestate"] != "truth" and not kd["method"]]
+            if hosts:
+                hk, hf = r.choice(hosts)
+                guests = [(k, f) for k, kd in cfg["kinds"].items() for f in kd["files"] if k not in (hk, cfg["truth"]) and not kd["method"] and f["prestate"] != "truth"]
+                if guests:
+                    gk, gf = r.choice(guests)
+                    gf.update({"name": hf["name"], "prestate": "shared", "content": None})
+                    shared = True
+        run.dist["shared_target_file"][shared] += 1
         run.dist["truth"][cfg["truth"]] += 1
         return {"cfg": cfg, "via_cli": r.random() < 0.4}
 
@@ -214,6 +227,9 @@ class C10(SyncProp):
                         import os
 
                         n = os.path.basename(parts[1])
+                        multi = sum(1 for kd in cfg["kinds"].values() for f in kd["files"] if f["name"] == n) > 1
+                        if multi and parts[0] == "unchanged":
+                            continue  # printed per step: another step of the same run may have changed the file
                         if (parts[0] == "modified") != (n in changed):
                             fails.append({"what": "printed modified/unchanged line is wrong", "run": i, "file": n, "printed": parts[0], "_class": classes.get(n)})
             # (3) convergence: with an unchanged truth, nothing changes after the first run
@@ -266,7 +282,7 @@ class C11(SyncProp):
         for k, kd in cfg["kinds"].items():
             for f in kd["files"]:
                 n = f["name"]
-                if n not in before:
+                if n not in before or f["prestate"] == "shared":
                     continue
                 cls = None
                 tc = self.target_class(cfg, k, kd, f)
@@ -278,11 +294,23 @@ class C11(SyncProp):
                 except SyntaxError:
                     fails.append(dict(tag, what="file does not parse after sync", content=after[n][:300]))
                     continue
+                # (every definition the sync was asked to put into this file is "addressed")
+                addressed = [kd2["name"] for kd2 in cfg["kinds"].values() for f2 in kd2["files"] if f2["name"] == n]
                 try:
-                    b = syncbase.other_statements(before[n], kd["name"])
+                    b = syncbase.other_statements(before[n], addressed)
                 except SyntaxError:
                     continue
-                a = syncbase.other_statements(after[n], kd["name"])
+                a = syncbase.other_statements(after[n], addressed)
+                # ... and each addressed definition is there exactly once afterwards (added when absent, replaced
+                # when present, never duplicated or lost again by a later step of the same run)
+                for k2, kd2 in cfg["kinds"].items():
+                    if kd2["method"] or not any(f2["name"] == n for f2 in kd2["files"]):
+                        continue
+                    want_t = ast.ClassDef if k2 == "class" else ast.FunctionDef
+                    cnt = lambda src: sum(1 for st in ast.parse(src).body if isinstance(st, want_t) and st.name == kd2["name"])
+                    nb, na = cnt(before[n]), cnt(after[n])
+                    if nb <= 1 and na != 1:
+                        fails.append(dict(tag, what="an addressed definition is not in the file exactly once after the sync", name=kd2["name"], before=nb, after=na))
                 # an added definition appears as one extra statement only when it was absent before
                 if a != b:
                     # the appended definition itself is excluded by name; anything else is a frame violation
